@@ -10,7 +10,7 @@ Separate Extraction
   BinNat.N.add BinNat.N.mul BinNat.N.div_eucl BinInt.Z.of_N BinInt.Z.to_N
   Strings.Byte.of_N Strings.Byte.to_N
   Frame.sock_make_header Frame.udp_make_header Frame.ws_make_header
-  Limit.all_transports Limit.pinned_sites Limit.original_sites Limit.covers Limit.framed
+  Limit.all_transports Limit.plain Limit.pinned_sites Limit.original_sites Limit.covers Limit.framed
   Limit.admission Limit.serve Limit.truthful Limit.rejected
   Limit.reply_of Limit.client_decode Limit.caller_outcome Limit.too_large_text
   Limit.sock_reject_frame Limit.ws_reject_msg Limit.udp_reject_dgram
